@@ -148,4 +148,5 @@ def run(chk):
 
 def safety_net(chk):
     from .c11 import alias_battery
-    return alias_battery(chk.seed) or absolute_battery(chk.seed)
+    from sym import ptreplay
+    return alias_battery(chk.seed) or absolute_battery(chk.seed) or ptreplay.battery_value_history(chk.seed, "element")
